@@ -305,19 +305,31 @@ def build(spec, with_history=True, rec=None):
     for k in ("type", "table_id", "generated_by"):
         if spec.get(k) is not None:
             kwargs[k] = spec[k]
+    tup = bool(spec.get("md_tuples"))
+    for k, kwn in (("obs_gmd", "observation_group_metadata"),
+                   ("samp_gmd", "sample_group_metadata")):
+        if spec.get(k):
+            kwargs[kwn] = {a: tuple(b) for a, b in spec[k].items()}
     t = Table(data, list(spec["obs"]), list(spec["samp"]),
-              _md_in(spec.get("obs_md")), _md_in(spec.get("samp_md")),
-              **kwargs, **kw)
+              _md_in(spec.get("obs_md"), tup),
+              _md_in(spec.get("samp_md"), tup), **kwargs, **kw)
     if with_history:
         t = ops.apply_history(t, spec.get("history", []), rec)
     return t
 
 
-def _md_in(md):
+def _md_in(md, tuples=False):
+    """Fresh metadata objects for the constructor; with `tuples`, list values
+    are handed over as tuples (cases are JSON data, which has no tuples)."""
     if md is None:
         return None
     import copy
-    return [copy.deepcopy(m) for m in md]
+    out = [copy.deepcopy(m) for m in md]
+    if tuples:
+        out = [{k: (tuple(v) if isinstance(v, list) else v)
+                for k, v in m.items()} if m is not None else None
+               for m in out]
+    return out
 
 
 @st.composite
